@@ -41,12 +41,12 @@ def temperature(draw, nlayers, allow=('iso', 'ctrl')):
 
 @st.composite
 def world(draw, layers=(2, 40), nwn=(1, 12), max_active=3, mags=None, temps=('ctrl', 'iso', 'ctrl'),
-          extras=('CIA', 'Rayleigh', 'SimpleClouds')):
+          extras=('CIA', 'Rayleigh', 'SimpleClouds'), min_active=1):
     combos = [[]] + [[e] for e in extras] + [list(extras[:2]), list(extras)] if extras else [[]]
     ex = sorted(draw(st.sampled_from(combos)))
     nl = draw(st.integers(*layers))
     nw = draw(st.integers(*nwn))
-    nact = draw(st.integers(1, max_active))
+    nact = draw(st.integers(min_active, max_active))
     mols = draw(st.permutations(MOLS))[:nact]
     gases = []
     for m in mols:
